@@ -382,6 +382,14 @@ func ruleC15PermissionError(c *Ctx) {
 			if !ok || is.Else != nil || selField(info, is.Cond) != ro {
 				return
 			}
+			// a branch that does not end in a return is not a rejecting guard (OpenFile's flag selection written
+			// with an early exit); what it lets through is judged by guarded-reach and flag-integrity
+			if len(is.Body.List) == 0 {
+				return
+			}
+			if _, isRet := is.Body.List[len(is.Body.List)-1].(*ast.ReturnStmt); !isRet {
+				return
+			}
 			n++
 			good := false
 			if len(is.Body.List) > 0 {
